@@ -315,6 +315,63 @@ func runC05(r *Result, d *drv.Driver, tier string, seed int64, replay string) {
 	c05Fragmented(r)
 	c05Faults(r)
 	c05History(r)
+	c05DeepSkip(r)
+}
+
+// c05DeepSkip: the item a `skip` field steps over (a vendor extension) may be a structure of any depth: thousands of
+// structures nested in each other, every length honest. Stepping over it - complete, or cut 8 bytes / half-way short - costs
+// what stepping over a flat item of that size costs: linear in the bytes received, whatever is inside.
+func c05DeepSkip(r *Result) {
+	types := allDecodeTypes()
+	base := &kmip.Request{Header: kmip.RequestHeader{Version: kmip.ProtocolVersion{Major: 1, Minor: 4}, BatchCount: 1},
+		BatchItems: []kmip.RequestBatchItem{{Operation: kmip.OPERATION_DISCOVER_VERSIONS, RequestPayload: kmip.DiscoverVersionsRequest{},
+			MessageExtension: kmip.MessageExtension{VendorIdentification: "acme", CriticalityIndicator: true}}}}
+	var eb bytes.Buffer
+	if err := kmip.NewEncoder(&eb).Encode(base); err != nil {
+		r.find(Finding{Kind: "disagreement", What: "cannot encode the deep-skip base message", Actual: err.Error()})
+		return
+	}
+	data0 := eb.Bytes()
+	for _, depth := range []int{200, 1000, 2000, 4000} {
+		inner := []byte{0x54, 0x00, 0x01, 0x01, 0, 0, 0, 0}
+		for i := 0; i < depth; i++ {
+			h := []byte{0x54, 0x00, 0x01, 0x01, 0, 0, 0, 0}
+			binary.BigEndian.PutUint32(h[4:], uint32(len(inner)))
+			inner = append(h, inner...)
+		}
+		inner[0], inner[1], inner[2] = 0x42, 0x00, 0x7d // the outermost one is the Vendor Extension item
+		var msg []byte
+		for _, n := range mut.All(mut.Parse(data0)) {
+			if n.Tag == 0x420051 {
+				msg = append(append(append([]byte(nil), data0[:n.End]...), inner...), data0[n.End:]...)
+				for p := n; p != nil; p = p.Parent {
+					binary.BigEndian.PutUint32(msg[p.Off+4:], binary.BigEndian.Uint32(msg[p.Off+4:])+uint32(len(inner)))
+				}
+			}
+		}
+		if msg == nil {
+			continue
+		}
+		for _, cut := range []int{0, 8, len(inner) / 2} {
+			in := msg[:len(msg)-cut]
+			key := fmt.Sprintf("deep-skip: Request whose vendor extension is %d structures nested in each other (%d bytes), %d bytes cut off the end", depth, len(msg), cut)
+			crumb("C05 " + key)
+			r.eval(key, true)
+			alloc, class := measureDecode(types["Request"], in)
+			r.Stats["deep-skip-measurements"]++
+			bound := uint64(allocA*len(in) + allocB)
+			if alloc > bound {
+				r.find(Finding{Kind: "violation", What: "Decode allocated more than the linear bound in the bytes received while stepping over a deeply nested vendor extension", Input: map[string]string{"scenario": key, "first_bytes": hx(in[:min(len(in), 200)])},
+					Expect: fmt.Sprintf("<= %d", bound), Actual: fmt.Sprintf("%d (outcome %s)", alloc, class)})
+			}
+			if cut == 0 && class != "ok" {
+				r.find(Finding{Kind: "violation", What: "a well-formed message with a deeply nested vendor extension was not decoded", Input: key, Expect: "ok", Actual: class})
+			}
+			if class == "panic" || class == "timeout" {
+				r.find(Finding{Kind: "violation", What: "Decode did not return an error or a value on a deeply nested vendor extension", Input: key, Actual: class})
+			}
+		}
+	}
 }
 
 // c05History: "allocation measured per Decode call" - on a connection one Decoder decodes message after message, and what a
